@@ -7,6 +7,7 @@ T8c  LABELMAP branch of `_get_pixels_by_seg_frame`: `need_remap` and the interme
 T8d  BINARY/FRACTIONAL branch: intermediate dtype, the float-dtype requirement of a rescaled read and the refusal
      to combine a FRACTIONAL segmentation without rescaling.
 T8e  LABELMAP branch, `if need_remap:`: size and dtype of the remapping table and the value of one cell (both loops).
+T8f  `get_pixels_by_source_frame`: the checks every requested source frame number must pass.
 
 dtype codes (shared with Model/SegRead.lean `DType.ofCode`): uintN -> N, intN -> 100+N, floatN -> 200+N, bool -> 1.
 
@@ -346,3 +347,56 @@ TARGETS = {
     'T8c': {'file': 'seg/sop.py', 'build': build_T8c},
     'T8d': {'file': 'seg/sop.py', 'build': build_T8d},
 }
+
+
+def build_T8f(tree):
+    """`get_pixels_by_source_frame`: what is asked of every requested source frame number `f` — positive, and (unless
+    the caller asserts that missing frames are empty) not above the highest referenced frame number."""
+    fn = find_func(tree, 'Segmentation.get_pixels_by_source_frame')
+    pos = None
+    miss = None
+    for st in fn.body:
+        if isinstance(st, ast.If):
+            t = _norm(st.test)
+            if t.startswith('notall((') and t.endswith('forfinsource_frame_numbers))'):
+                pos = st
+            if t == 'notassert_missing_frames_are_empty':
+                miss = st
+    if pos is None or miss is None:
+        raise Unsupported('frame number checks of get_pixels_by_source_frame not found')
+    gen = pos.test.operand.args[0]
+    if not (isinstance(gen, ast.GeneratorExp) and len(gen.generators) == 1 and not gen.generators[0].ifs
+            and isinstance(gen.generators[0].target, ast.Name) and gen.generators[0].target.id == 'f'):
+        raise Unsupported('positivity check is no longer all(E for f in source_frame_numbers)')
+    s1 = ast.If(test=ast.UnaryOp(op=ast.Not(), operand=gen.elt), body=pos.body, orelse=[])
+    loops = [x for x in miss.body if isinstance(x, ast.For)]
+    if len(loops) != 1 or _norm(loops[0].iter) != 'source_frame_numbers' or not isinstance(loops[0].target, ast.Name) \
+            or loops[0].target.id != 'f' or miss.orelse:
+        raise Unsupported('missing-frame check is no longer a loop over source_frame_numbers')
+    def nomsg(stmts):
+        out = []
+        for x in stmts:
+            if isinstance(x, ast.Assign) and isinstance(x.value, (ast.JoinedStr, ast.Constant)) and \
+                    (isinstance(x.value, ast.JoinedStr) or isinstance(x.value.value, str)):
+                continue          # error message text
+            if isinstance(x, ast.If):
+                x = ast.If(test=x.test, body=nomsg(x.body), orelse=nomsg(x.orelse))
+            out.append(x)
+        return out
+    inner = nomsg([x for x in miss.body if not isinstance(x, ast.For)] + loops[0].body)
+    s2 = ast.If(test=miss.test, body=inner, orelse=[])
+    # a refused number must not be swallowed later: the numbers reach the frame query unchanged
+    if "'ReferencedFrameNumber':list(source_frame_numbers)" not in ''.join(_norm(x) for x in fn.body):
+        raise Unsupported('source_frame_numbers no longer reach the stack query unchanged')
+    stmts = [s1, s2, ast.parse('return f').body[0]]
+    stmts = [copy.deepcopy(x) for x in stmts]
+    for x in stmts:
+        ast.fix_missing_locations(x)
+    text = translate_block(
+        stmts, 'frameAdmitted', [('f', 'int'), ('assert_missing_frames_are_empty', 'bool')],
+        {'self._get_max_referenced_frame_number()': ('int', 'maxReferenced')},
+        doc='`get_pixels_by_source_frame`: the checks every requested source frame number must pass (result = the number)')
+    return text, span_sha([pos, miss])
+
+
+TARGETS['T8f'] = {'file': 'seg/sop.py', 'build': build_T8f}
